@@ -94,7 +94,7 @@ class Ctx:
 
     def verify(self, name, module, qualname, setup, post=None, loops=None, registry=None, extras=None,
                allowed_raises=(), raises_post=None, check_div=False, prefix=None, on_interp=None,
-               expect_paths=1):
+               expect_paths=1, witness=None):
         """Symbolically execute module.qualname under the contract and discharge its obligations.
 
         setup(I, st) -> dict(self_val=..., args=[...], kwargs={...})   (assumes `requires` on st)
@@ -184,7 +184,7 @@ class Ctx:
             groups.setdefault(key, []).append(ob)
         res = []
         for lab, obs in groups.items():
-            status, secs, backend, detail, model, line = "discharged", 0.0, "z3", "", None, None
+            status, secs, backend, detail, model, line, wit = "discharged", 0.0, "z3", "", None, None, None
             for ob in obs:
                 discharge.discharge(ob, self.timeout_ms)
                 secs += ob.time
@@ -196,10 +196,16 @@ class Ctx:
                         detail = ob.note or ""
                         model = discharge.model_to_dict(ob.model)
                         line = ob.line
+                        if witness is not None and ob.model is not None:
+                            try:
+                                wit = witness(ob.model, lab)
+                            except Exception as e:  # a witness extractor must never mask the verdict
+                                wit = None
+                                detail += f" [witness extraction failed: {e}]"
                     if ob.status == "violated":
                         break
             res.append(self.add(ObResult(f"{prefix}/{name}/{lab}" if name else f"{prefix}/{lab}", status, backend,
-                                         secs, len(obs), detail, model, line or obs[0].line)))
+                                         secs, len(obs), detail, model, line or obs[0].line, witness=wit)))
         if not res:
             res.append(self.add(ObResult(f"{prefix}/{name}/no-obligations", "error",
                                          detail="VC generation produced zero obligations")))
